@@ -311,7 +311,7 @@ func (ex *Explorer) runPath(solver *Solver, prefix []Decision) (res *PathResult,
 	}
 	// sample: a model of the path condition with predicted observations
 	if ex.wantSample() {
-		if r, mod := solver.CheckModel(nil, m.ndTerms()); r == Sat {
+		if r, mod := solver.CheckModel(nil, m.sampleVars()); r == Sat {
 			res.sample = &Sample{Harness: ex.name, Feed: m.feed(mod), Observes: m.evalObserves(mod), Case: strings.Join(m.caseTag, ","), Steps: m.steps}
 		}
 	}
@@ -322,6 +322,40 @@ func (ex *Explorer) wantSample() bool {
 	ex.mu.Lock()
 	defer ex.mu.Unlock()
 	return len(ex.Samples) < ex.cfg.Samples
+}
+
+// sampleVars: the nd variables plus every auxiliary variable the observations depend on.
+func (m *Machine) sampleVars() []*Term {
+	vs := m.ndTerms()
+	seen := map[string]*Term{}
+	var walk func(v Val)
+	walk = func(v Val) {
+		switch v := v.(type) {
+		case *Term:
+			termVars(v, seen)
+		case *SymStr:
+			for _, b := range v.B {
+				walk(b)
+			}
+		case Slice:
+			for _, b := range v {
+				walk(b)
+			}
+		}
+	}
+	for _, o := range m.observes {
+		walk(o.V)
+	}
+	have := map[string]bool{}
+	for _, v := range vs {
+		have[v.Name] = true
+	}
+	for n, t := range seen {
+		if !have[n] {
+			vs = append(vs, t)
+		}
+	}
+	return vs
 }
 
 func (m *Machine) ndTerms() []*Term {
